@@ -57,3 +57,13 @@ Proof.
   destruct (find _ (p_cstats p)) as [c|] eqn:E; cbn [fst snd]; [|discriminate].
   intros _. apply find_some in E. destruct E as [_ E]. destruct (cs_waiting c); [exact E | discriminate].
 Qed.
+
+(** the node selector always applies, whatever the affinity block looks like (absent, empty, preferences only - all of which
+    the model reads as "no required term" - or required terms) *)
+Theorem node_selector_always_applies : forall t tols n,
+  fit_tols t tols n = true -> set_matches (t_nodesel t) (n_labels n) = true.
+Proof.
+  intros t tols n H. unfold fit_tols, check_node_selector in H.
+  apply andb_true_iff in H. destruct H as [H _]. apply andb_true_iff in H. destruct H as [H _]. exact H.
+Qed.
+
